@@ -286,6 +286,45 @@ def stack_ok(g, stack, path, resid):
             return "the reported path cannot follow the query steps"
     return None if (len(ids) - 1) in pos else "the reported path does not end where the query steps end"
 
+def envelope(g, trace):
+    """superset of the node trail ('valid') that Bob's node-level bookkeeping keeps for a query: after every step
+    the nodes between the old and the new context nodes are added and the trail is trimmed to the nodes that reach
+    the new context nodes inside the trail. Used only to tell the listed finding (a reported path that stays inside
+    this trail but skips a step) from any other wrong path."""
+    parents, dparents = {}, {}
+    for k, n in g.nodes.items():
+        for c, d in n["children"].values():
+            parents.setdefault(c, set()).add(k)
+            if d: dparents.setdefault(c, set()).add(k)
+    valid, old = {g.root}, {g.root}
+    for _i, (axis, _test, _pred), cur in trace:
+        direct_only = axis.startswith("direct-")
+        if "descendant" in axis:
+            below = g.descendants(old, not direct_only) | old
+            anc, todo = set(), set(cur)
+            while todo:
+                n = todo.pop()
+                if n in anc: continue
+                anc.add(n)
+                todo |= (dparents if direct_only else parents).get(n, set())
+            valid |= below & anc
+        valid |= cur
+        ret, todo = set(), set(cur)
+        while todo:
+            n = todo.pop()
+            if n not in valid or n in ret: continue
+            ret.add(n)
+            todo |= parents.get(n, set())
+        valid &= ret
+        old = cur
+    return valid
+
+def stack_ids(g, stack):
+    ids = [g.root]
+    for nm in stack:
+        ids.append(g.nodes[ids[-1]]["children"][nm][0])
+    return ids
+
 def run_case(ctx, case):
     from bob.errors import BobError
     graph = case["graph"]
@@ -388,12 +427,22 @@ def run_case(ctx, case):
                     why = stack_ok(g, p.getStack(), path, p._getId())
                     if why:
                         kind = "bypass" if ("query steps" in why) else "broken"
+                        if kind == "bypass" and not set(stack_ids(g, p.getStack())) <= envelope(g, trace):
+                            kind = "outside-trail"      # not the listed finding: the path leaves even the node trail
                         ctx.fail("reported-path-off-query:" + kind, "%s reports package path %r: %s" % (where, "/".join(p.getStack()), why), qcase)
                 # queryAll: same set
                 try:
-                    gall = {p._getId() for p in ps.queryPackagePath(qtext, True)}
+                    gall_pkgs = list(ps.queryPackagePath(qtext, True))
+                    gall = {p._getId() for p in gall_pkgs}
                 except BobError:
-                    gall = None
+                    gall = None; gall_pkgs = []
+                for p in gall_pkgs:
+                    why = stack_ok(g, p.getStack(), path, p._getId())
+                    if why:
+                        kind = "bypass" if ("query steps" in why) else "broken"
+                        if kind == "bypass" and not set(stack_ids(g, p.getStack())) <= envelope(g, trace):
+                            kind = "outside-trail"
+                        ctx.fail("reported-path-off-query:" + kind, "%s with queryAll reports package path %r: %s" % (where, "/".join(p.getStack()), why), qcase)
                 if gall is not None and gall != want:
                     ctx.fail("wrong-result-set-queryall", "%s with queryAll returned a different set" % where, qcase)
     finally:
@@ -450,9 +499,9 @@ query_st = st.one_of(
     st.fixed_dictionaries({"path": path_st(pred_level(2), 3),
                            "mode": st.sampled_from(["nullglob", "nullglob", "nullset", "nullfail"]),
                            "parens": st.lists(st.integers(0, 2), max_size=4)}),
-    st.fixed_dictionaries({"path": path_st(pred_level(2), 3),
-                           "mode": st.sampled_from(["nullglob", "nullglob", "nullset", "nullfail"]),
-                           "parens": st.lists(st.integers(0, 2), max_size=4)}),
+    st.fixed_dictionaries({"path": path_st(st.none(), 4),      # longer paths of plain steps: dead-end branches of early steps
+                           "mode": st.sampled_from(["nullglob", "nullset"]),
+                           "parens": st.just([])}),
     st.fixed_dictionaries({"path": st.just({"abs": 1, "steps": [["/", ["child", "root", None]]]}), "mode": st.just("nullglob"),
                            "raw": st.sampled_from(RAW)}),
 )
